@@ -22,6 +22,22 @@ func main() {
 	rng := rand.New(rand.NewSource(*seed))
 	thorough := *tier == "thorough"
 	switch *prop {
+	case "gen":
+		if err := runGen("/repo", *out); err != nil {
+			fmt.Fprintln(os.Stderr, err)
+			os.Exit(1)
+		}
+		return
+	case "gen1":
+		runGen1()
+		return
+	case "C02":
+		runC02(r, rng, thorough)
+	case "C17":
+		runC17(r, rng, thorough)
+	case "scan":
+		runScanDump("/repo")
+		return
 	case "probe":
 		runProbe(rng)
 		return
